@@ -42,12 +42,78 @@ func installFiles(cfg [][]byte, files [][]byte) (*processors.Context, error) {
 	}
 	yamlPath := filepath.Join(root, "regex-assembly", "toolchain.yaml")
 	_ = os.Remove(yamlPath)
-	if cfg != nil {
+	if yamlStyle != "" {
+		full := cfg
+		if full == nil {
+			full = [][]byte{{}, {}, {}, {}, {}, {}}
+		}
+		content, write := toolchainYamlStyled(yamlStyle, full)
+		yamlStyle = ""
+		if write {
+			if err := os.WriteFile(yamlPath, []byte(content), 0o644); err != nil {
+				return nil, err
+			}
+		}
+	} else if cfg != nil {
 		if err := os.WriteFile(yamlPath, []byte(toolchainYaml(cfg)), 0o644); err != nil {
 			return nil, err
 		}
 	}
 	return processors.NewContext(context.New(root, "toolchain.yaml")), nil
+}
+
+// yamlStyle selects how the next toolchain.yaml is written (see toolchainYamlStyled); reset after each use
+var yamlStyle = ""
+
+// toolchainYamlStyled: the same six patterns in other spellings of the file the loader has to cope with
+func toolchainYamlStyled(style string, cfg [][]byte) (content string, write bool) {
+	switch style {
+	case "absent":
+		return "", false
+	case "empty-file":
+		return "", true
+	case "malformed":
+		return "patterns:\n  anti_evasion: [unclosed\n    unix: |\n   x\n", true
+	case "omit-empty":
+		// keys whose pattern is empty are left out altogether (a partial file)
+		var sb strings.Builder
+		sb.WriteString("patterns:\n")
+		names := []string{"anti_evasion", "anti_evasion_suffix", "anti_evasion_no_space_suffix"}
+		for i, n := range names {
+			if len(cfg[i]) == 0 && len(cfg[i+3]) == 0 {
+				continue
+			}
+			sb.WriteString("  " + n + ":\n")
+			if len(cfg[i]) > 0 {
+				sb.WriteString("    unix:" + yamlBlock("      ", cfg[i]))
+			}
+			if len(cfg[i+3]) > 0 {
+				sb.WriteString("    windows:" + yamlBlock("      ", cfg[i+3]))
+			}
+		}
+		return sb.String(), true
+	case "padded":
+		// patterns surrounded by blank lines and spaces inside the block scalar: the loader trims them
+		var sb strings.Builder
+		sb.WriteString("# a comment\npatterns:\n")
+		names := []string{"anti_evasion", "anti_evasion_suffix", "anti_evasion_no_space_suffix"}
+		for i, n := range names {
+			sb.WriteString("  " + n + ":\n    note: not a pattern\n")
+			for _, kv := range []struct {
+				k string
+				v []byte
+			}{{"unix", cfg[i]}, {"windows", cfg[i+3]}} {
+				if len(kv.v) == 0 {
+					sb.WriteString("    " + kv.k + ": \"  \"\n")
+				} else {
+					sb.WriteString("    " + kv.k + ": |\n\n      " + string(kv.v) + "   \n\n")
+				}
+			}
+		}
+		sb.WriteString("other_key: 1\n")
+		return sb.String(), true
+	}
+	return toolchainYaml(cfg), true
 }
 
 func yamlBlock(indent string, s []byte) string {
@@ -179,6 +245,11 @@ func init() {
 			return diag(err.Error())
 		}
 		return okS(out)
+	}
+	// gen.runYaml: style, then the arguments of gen.run — the configuration file is written in that style
+	implOps["gen.runYaml"] = func(a [][]byte) Result {
+		yamlStyle = string(a[0])
+		return implOps["gen.run"](a[1:])
 	}
 	implOps["gen.run"] = func(a [][]byte) Result {
 		cfg := a[0:6]
